@@ -190,7 +190,7 @@ pub fn summarize_case(case: &Case) -> serde_json::Value {
             json!({"kind":"iter","spec":spec(&c.spec),"env":c.env,"queries":c.queries.iter().take(6).collect::<Vec<_>>(),"n_queries":c.queries.len(),"v1":c.v1})
         }
         Case::Merge(c) => {
-            json!({"kind":"merge","sources":c.sources.iter().map(spec).collect::<Vec<_>>(),"attach":c.attach,"mf":c.mf,"out_mode":c.out_mode,"env":c.env})
+            json!({"kind":"merge","n_sources":c.sources.len(),"first_sources":c.sources.iter().take(4).map(spec).collect::<Vec<_>>(),"attach":c.attach.iter().take(16).collect::<Vec<_>>(),"mf":c.mf,"out_mode":c.out_mode,"env":c.env})
         }
         Case::Sort(c) => {
             json!({"kind":"sort","inserts":c.inserts.len(),"knobs":c.knobs,"alt_knobs":c.alt_knobs.len(),"mf":c.mf,"consume":c.consume,"env":c.env})
